@@ -247,3 +247,53 @@ theorem pyCall_keywords (s : Sig) (args : List Val) (kws : List (String × Val))
         exact this
 
 end Fiddle
+
+namespace Fiddle
+open Sig
+
+/-- More positional arguments than positional parameters and no `*args`: `TypeError`. -/
+theorem pyCall_excess_rejected (s : Sig) (args : List Val) (kws : List (String × Val))
+    (h : s.positionalParams.length < args.length) (hv : s.hasVp = false) :
+    pyCall s args kws = .error .typeError := by
+  unfold pyCall
+  have : (args.drop s.positionalParams.length).isEmpty = false := by
+    cases hd : args.drop s.positionalParams.length with
+    | nil =>
+      have := congrArg List.length hd
+      simp at this; omega
+    | cons a r => rfl
+  simp [this, hv]
+
+theorem pyCall_kwLoop_unknown (s : Sig) (n : String) (hk : s.isKwParam n = false) (hvk : s.hasVk = false) :
+    ∀ (kws named extra : List (String × Val)) (v : Val), (n, v) ∈ kws →
+      pyCall.kwLoop s kws named extra = .error .typeError := by
+  intro kws
+  induction kws with
+  | nil => intro _ _ v h; cases h
+  | cons kv r ih =>
+    intro named extra v h
+    obtain ⟨n0, v0⟩ := kv
+    simp only [pyCall.kwLoop]
+    rcases List.mem_cons.mp h with e | hr
+    · cases e
+      simp [hk, hvk]
+    · split
+      · split
+        · rfl
+        · exact ih _ _ v hr
+      · split
+        · exact ih _ _ v hr
+        · rfl
+
+/-- A keyword that names no keyword-capable parameter, with no `**kwargs` to take it: `TypeError`
+    — it is never bound to some other parameter. -/
+theorem pyCall_unknown_keyword_rejected (s : Sig) (args : List Val) (kws : List (String × Val))
+    (n : String) (v : Val) (hm : (n, v) ∈ kws) (hk : s.isKwParam n = false) (hvk : s.hasVk = false) :
+    pyCall s args kws = .error .typeError := by
+  unfold pyCall
+  simp only
+  split
+  · rfl
+  · rw [pyCall_kwLoop_unknown s n hk hvk _ _ _ v hm]
+
+end Fiddle
